@@ -104,8 +104,8 @@ def gen_case(rng, tier="quick"):
     kinds = ["new_corr", "set_attr", "eval", "new_bath",
              "bath_eval", "scribble_bath", "tempo", "pt",
              "dynamics", "gradient", "tebd", "mutate_after",
-             "fault_then", "system_use", "probe", "shared"]
-    weights = [1, 5, 6, 4, 4, 1, 2, 2, 3, 1, 2, 2, 1, 5, 4, 5]
+             "fault_then", "system_use", "probe", "shared", "flood"]
+    weights = [1, 5, 6, 4, 4, 1, 2, 2, 3, 1, 2, 2, 1, 5, 4, 5, 0.4]
     shared_kinds = list(SHARED_KINDS)
     if rng.random() < 0.5:
         # swarm: this history uses only some of the operation kinds, so
@@ -133,6 +133,11 @@ def gen_case(rng, tier="quick"):
         elif k == "eval":
             ops.append(["eval", rng.randrange(8), rng.randrange(8),
                         rng.randrange(5)])
+        elif k == "flood":
+            # many different questions to one object, then the first ones
+            # again (bounded caches, tables that are rebuilt when full)
+            ops.append(["flood", rng.randrange(8), rng.randrange(8),
+                        _pick(rng, [40, 140, 300])])
         elif k == "probe":
             # memo probe: evaluate, change one attribute, evaluate the very
             # same thing again (three plain operations, so still shrinkable)
@@ -260,6 +265,18 @@ def evaluate(obj, what, arg):
     t1 = [0.1, 0.0, 0.2, 0.0, 0.3][arg]
     return complex(obj.correlation_2d_integral(delta=0.1, time_1=t1,
                                                shape=shape))
+
+
+def evaluate_at(obj, what, x):
+    """Like evaluate(), at a freely chosen argument."""
+    if what == "corr":
+        return complex(obj.correlation(x))
+    if what == "sd":
+        return complex(obj.spectral_density(x))
+    if what == "eta":
+        return complex(obj.eta_function(x))
+    return complex(obj.correlation_2d_integral(delta=0.1, time_1=x,
+                                               shape="square"))
 
 
 def layout(arr, kind):
@@ -575,6 +592,44 @@ def _run_case(case, dec, pristine):
                 c["touched"].add(name)
                 stats["set_attr"] += 1
                 log.ev("set_attr", op[1] % len(corrs), name, str(value))
+            elif k == "flood":
+                if not corrs:
+                    continue
+                ci = op[1] % len(corrs)
+                c = corrs[ci]
+                what = EVALS[c["kind"]][op[2] % len(EVALS[c["kind"]])]
+                count = op[3] if what == "sd" else min(op[3], 140)
+                first = [evaluate(c["obj"], what, a) for a in range(5)]
+                xs = [0.011 + 0.0137 * j for j in range(count)]
+                during = [evaluate_at(c["obj"], what, x) for x in xs]
+                again = [evaluate(c["obj"], what, a) for a in range(5)]
+                fresh = make_corr(c["kind"], c["vals"])
+                want = [evaluate(fresh, what, a) for a in range(5)]
+                # the fresh object is asked in the opposite order (only a
+                # sample of the questions where each one costs an integral)
+                if what != "sd":
+                    keep = list(range(0, count, 9))
+                    xs = [xs[i] for i in keep]
+                    during = [during[i] for i in keep]
+                want_during = [evaluate_at(fresh, what, x)
+                               for x in reversed(xs)][::-1]
+                stats["evals"] += 2 * count + 15
+                ok1, e1 = _close(np.array(first), np.array(want), TOL)
+                ok2, e2 = _close(np.array(again), np.array(want), TOL)
+                ok3, e3 = _close(np.array(during), np.array(want_during),
+                                 TOL)
+                log.ev("flood", ci, what, count, ok1, ok2, ok3)
+                if not (ok1 and ok2 and ok3):
+                    viol("stale_after_attribute_change"
+                         if c["touched"] and not ok1
+                         else "reuse_changes_result",
+                         "%s/%s/flood" % (c["kind"], what),
+                         "%s.%s: after %d evaluations at other arguments "
+                         "the object answers differently from a fresh "
+                         "object with the same parameters (before the "
+                         "series: %.3g, in it: %.3g, after it: %.3g)" % (
+                             c["kind"], what, count, e1, e3, e2),
+                         holder=c["kind"], method=what)
             elif k == "eval":
                 if not corrs:
                     continue
